@@ -149,7 +149,7 @@ Proof.
   { split.
     - split; [exact G|]. split; [cbn; rewrite EF; reflexivity|]. split.
       + destruct M as [F N]. split; [|exact N]. cbn. constructor; [|exact F].
-        repeat split. cbn. unfold cur_ns. rewrite EF. inversion F as [|sc f0 scs fs (V & NS & BB) F' E1 E2]; subst.
+        split; [apply vars_match_mvars|split; [|reflexivity]]. cbn. unfold cur_ns. rewrite EF. inversion F as [|sc f0 scs fs (V & NS & BB) F' E1 E2]; subst.
         unfold cur_ns_of. rewrite <- E1. exact NS.
       + split; [cbn; lia|exact D].
     - split; [reflexivity|]. exists [VNil]. split; [reflexivity|]. split; [reflexivity|discriminate]. }
@@ -473,7 +473,7 @@ Proof.
       - split; [exact G3|]. split; [reflexivity|]. split.
         + apply match_upd. destruct MM2 as [F N]. split; [|exact N]. cbn. inversion F as [|sc f0 scs fs FM F' E1 E2]; subst.
           constructor; [|constructor; [exact FM|exact F']].
-          repeat split. cbn. destruct FM as (_ & NS & _). unfold cur_ns_of. rewrite <- E1. exact NS.
+          split; [intros k; reflexivity|split; [|reflexivity]]. cbn. destruct FM as (_ & NS & _). unfold cur_ns_of. rewrite <- E1. exact NS.
         + split; [cbn; lia|rewrite defects_upd_cur; exact D2].
       - split; [reflexivity|]. exists [VNil]. split; [reflexivity|]. split; [reflexivity|discriminate]. }
     destruct (IHb _ _ nf fdie (fc2 :: rest2') (c_values c) [] A3 eq_refl eq_refl eq_refl) as (r4 & c4 & fd4 & rest4 & S4 & M4 & EV4 & K4 & KR4).
